@@ -82,7 +82,7 @@ def main():
         ],
         "checks": checks,
         "not_applicable": [{"property_id": c, "reason": PENDING_REASON} for c in ALL if c not in claimed],
-        "notes": "fix: commits in /repo and their witnesses are listed in KNOWN_FINDINGS.txt; DESIGN.md has the trusted base.",
+        "notes": "fix: commits in /repo and their witnesses, and the one open finding (known:, C05, ECDSA resharing round-5 fac proofs), are listed in KNOWN_FINDINGS.txt; DESIGN.md has the trusted base.",
     }
     json.dump(m, open("/verif/MANIFEST.json", "w"), indent=1)
     print("claimed:", claimed)
